@@ -43,6 +43,9 @@ where
     R: BufRead,
 {
     fn fill_buf(&mut self) -> io::Result<&[u8]> {
+        #[cfg(kani)]
+        use crate::verif_kani::memchr_model as memchr;
+        #[cfg(not(kani))]
         use memchr::memchr;
 
         consume_empty_lines(&mut self.inner)?;
